@@ -9,6 +9,7 @@ operations, so both readings of "the same operations on validated keys"
 coincide on everything generated.
 """
 from ..core import Violation, stream, sut, exc_name, InjectedFault
+from ..core import deep
 from ..values import (CUR, ModelTraitError, raw, mval, make_validator,
                       RaisingIter)
 
@@ -197,11 +198,11 @@ class Prop:
         kk = c.choice(["none", "coerce", "point", "point"])
         vk = c.choice(["none", "coerce", "point", "point"])
         listeners = [c.choice(["raw", "raw", "obs"]) for _ in range(c.randint(1, 3))]
-        nops = c.choice([3, 5, 8, 12, 18, 25])
+        nops = deep(c, [3, 5, 8, 12, 18, 25], [40, 70])
         fault_rate = c.choice([0.0, 0.0, 0.1, 0.25])
         invalid_rate = c.choice([0.0, 0.05, 0.15])
         ctr = [100]
-        keyspace = list(range(1, c.choice([3, 5, 8]) + 1))
+        keyspace = list(range(1, deep(c, [3, 5, 8], [12]) + 1))
 
         def fresh():
             ctr[0] += 1
